@@ -2,7 +2,10 @@
 //!
 //! The body is linearised into the effect tokens of `Model/ArchiveSkel.lean`: builder calls,
 //! the component walk with its per-kind actions, the `files` / `dirs` map effects with their
-//! guard, in source order, split at `let entry = if <is file> {..} else {..}`. Statements that
+//! guard and the `register_dir` calls, in source order, split at `if <is file> {..} else {..}`
+//! (or the older `let entry = if ..`). The helper `register_dir` is linearised into `DirTok`s,
+//! and whether `create` registers the root directory before the members is recorded; so are the
+//! kind tests of `FileSystem::{exists, read, read_dir}` (src/source/filesystem.rs). Statements that
 //! only talk to the container API (`file.…`, `path`, logging) are skipped; a statement that
 //! mentions `files`, `dirs`, `id_builder`, `id`, `ext`, `desc`, `parent_id` or `entry` in a form
 //! not listed here is refused.
@@ -84,6 +87,9 @@ fn branch(which: &str, b: &syn::Block, is_file: bool) -> Result<Vec<String>, Str
                 toks.push(".dirsInsertEmptyIfAbsent".into());
             }
             Stmt::Expr(Expr::MethodCall(_), Some(_)) if s == "dirs.insert(id.clone(),Vec::new());" => toks.push(".dirsInsertEmpty".into()),
+            Stmt::Expr(Expr::Call(_), Some(_)) if s == "register_dir(dirs,parent_id.clone());" && is_file => toks.push(".registerDirParent".into()),
+            Stmt::Expr(Expr::Call(_), Some(_)) if s == "register_dir(dirs,id);" && !is_file && k + 1 == n => toks.push(".registerDirId".into()),
+            Stmt::Expr(Expr::MethodCall(_), Some(_)) if s == "dirs.entry(parent_id).or_default().push(OwnedEntry::File(desc));" && is_file && k + 1 == n => toks.push(".dirsPushParentFileDesc".into()),
             Stmt::Expr(e, None) if k + 1 == n && s == "OwnedEntry::File(desc)" && is_file => { let _ = e; toks.push(".entryFileDesc".into()) }
             Stmt::Expr(e, None) if k + 1 == n && s == "OwnedEntry::Dir(id)" && !is_file => { let _ = e; toks.push(".entryDirId".into()) }
             other => return refuse(which, "statement in entry branch", other),
@@ -143,10 +149,20 @@ fn skeleton(which: &str, file: &syn::File) -> Result<Sk, String> {
                             after_entry = true;
                         }
                         Stmt::Expr(_, Some(_)) if c == "dirs.entry(parent_id).or_default().push(entry);" => cur.push(".dirsPushParentEntry".into()),
+                        Stmt::Expr(Expr::If(i), _) => {
+                            // the repaired form: no `entry` value, each branch registers by itself
+                            if after_entry { return refuse(which, "second is-file split", cs); }
+                            let cond = flat(&i.cond);
+                            if !(cond.starts_with("file.") && cond.ends_with("is_file()")) || cond.contains('!') { return refuse(which, "is-file test", &i.cond); }
+                            sk.file = branch(which, &i.then_branch, true)?;
+                            let eb = match &i.else_branch { Some((_, e)) => match &**e { Expr::Block(b) => &b.block, other => return refuse(which, "else branch", other) }, None => return refuse(which, "missing else branch", i) };
+                            sk.dir = branch(which, eb, false)?;
+                            after_entry = true;
+                        }
                         other => return refuse(which, "statement in the registration closure", other),
                     }
                 }
-                if !after_entry { return Err(format!("{which}::register_file: no `let entry = if ..`")); }
+                if !after_entry { return Err(format!("{which}::register_file: no `if <is file> .. else ..` split")); }
                 continue;
             }
         }
@@ -161,6 +177,96 @@ fn lean_list(v: &[String]) -> String { format!("[{}]", v.join(", ")) }
 fn emit(name: &str, sk: &Sk) -> String {
     format!("def {name} : Skel where\n  pre := {}\n  fileBranch := {}\n  dirBranch := {}\n  post := {}\n\n",
         lean_list(&sk.pre), lean_list(&sk.file), lean_list(&sk.dir), lean_list(&sk.post))
+}
+
+/// `register_dir` → (`pre`, `withParent`) token lists; a source without the helper gives the
+/// empty skeleton (then no `register_file` token refers to it either).
+fn dir_skeleton(which: &str, file: &syn::File) -> Result<(Vec<String>, Vec<String>), String> {
+    let f = match find_fn(file, "", "register_dir") {
+        Ok(f) => f,
+        Err(e) if e.contains("not found") => return Ok((vec![], vec![])),
+        Err(e) => return Err(format!("{which}: {e}")),
+    };
+    let params: Vec<String> = f.sig.inputs.iter().map(|a| match a { syn::FnArg::Typed(t) => flat(&t.pat), other => flat(other) }).collect();
+    if params != ["dirs", "id"] { return refuse(which, "register_dir parameters", f.sig); }
+    let (mut pre, mut with_parent) = (vec![], vec![]);
+    let n = f.block.stmts.len();
+    for (k, st) in f.block.stmts.iter().enumerate() {
+        let s = flat(st);
+        match st {
+            Stmt::Expr(Expr::If(i), _) if flat(&i.cond) == "dirs.contains_key(&id)" => {
+                if i.else_branch.is_some() || i.then_branch.stmts.len() != 1 || flat(&i.then_branch.stmts[0]) != "return;" { return refuse(which, "register_dir guard", i); }
+                pre.push(".returnIfPresent".to_string());
+            }
+            Stmt::Expr(Expr::MethodCall(_), Some(_)) if s == "dirs.insert(id.clone(),Vec::new());" => pre.push(".insertEmpty".into()),
+            Stmt::Expr(Expr::If(i), _) if k + 1 == n && flat(&i.cond) == "letSome(parent_id)=DirEntry::Directory(&id).parent_id()" => {
+                if i.else_branch.is_some() { return refuse(which, "register_dir: else branch of the parent test", i); }
+                for ps in &i.then_branch.stmts {
+                    let c = flat(ps);
+                    if c == "letparent_id=SharedString::from(parent_id);" { continue; }
+                    else if c == "register_dir(dirs,parent_id.clone());" { with_parent.push(".recurseParent".to_string()); }
+                    else if c == "dirs.entry(parent_id).or_default().push(OwnedEntry::Dir(id));" { with_parent.push(".pushDirIntoParent".to_string()); }
+                    else { return refuse(which, "statement of register_dir (parent part)", ps); }
+                }
+            }
+            other => return refuse(which, "statement of register_dir", other),
+        }
+    }
+    Ok((pre, with_parent))
+}
+
+/// Does `create` register the root directory (`register_dir(&mut dirs, "")`) before any member?
+fn create_registers_root(which: &str, file: &syn::File, ty: &str) -> Result<bool, String> {
+    let f = find_fn(file, ty, "create").map_err(|e| format!("{which}: {e}"))?;
+    let mut seen_dirs = false;
+    for st in &f.block.stmts {
+        let s = flat(st);
+        if s == "letmutdirs=HashMap::new();" { seen_dirs = true; continue; }
+        if matches!(st, Stmt::Expr(Expr::ForLoop(_), _)) { return Ok(false); }
+        if s.contains("register_dir") {
+            if seen_dirs && s == "register_dir(&mutdirs,SharedString::from(\"\"));" { return Ok(true); }
+            return refuse(which, "use of register_dir in create", st);
+        }
+        if s.contains("dirs.") || s.contains("register_file") { return refuse(which, "use of dirs in create before the member loop", st); }
+    }
+    Err(format!("{which}::create: member loop not found"))
+}
+
+/// Kind tests of `FileSystem`: (exists checks the kind, read maps a non-file to NotFound,
+/// read_dir maps a non-directory to NotFound).
+fn fs_facts(file: &syn::File) -> Result<(bool, bool, bool), String> {
+    let which = "filesystem";
+    let ex = find_fn(file, "Source for FileSystem", "exists")?;
+    let exb = flat(ex.block);
+    let exists_kind = if exb == "{self.path_of(entry).exists()}" { false }
+        else if exb == "{letpath=self.path_of(entry);matchentry{DirEntry::File(..)=>path.is_file(),DirEntry::Directory(_)=>path.is_dir(),}}" { true }
+        else { return refuse(which, "body of FileSystem::exists", ex.block) };
+    let re = find_fn(file, "", "read_error")?;
+    let params: Vec<String> = re.sig.inputs.iter().map(|a| match a { syn::FnArg::Typed(t) => flat(&t.pat), other => flat(other) }).collect();
+    let reb = flat(re.block);
+    let maps = if params == ["err", "path"] && reb.ends_with("io::Error::new(err.kind(),Error{err,path})}") { false }
+        else if params == ["err", "right_kind", "path"] && reb.ends_with("letkind=ifright_kind{err.kind()}else{io::ErrorKind::NotFound};io::Error::new(kind,Error{err,path})}") { true }
+        else { return refuse(which, "read_error", re.sig) };
+    let rd = flat(find_fn(file, "Source for FileSystem", "read")?.block);
+    let ls = flat(find_fn(file, "Source for FileSystem", "read_dir")?.block);
+    if !rd.starts_with("{letpath=self.path_of(DirEntry::File(id,ext));matchfs::read(&path){") { return Err("filesystem: unsupported body of FileSystem::read".into()); }
+    if !ls.starts_with("{letdir_path=self.path_of(DirEntry::Directory(id));letentries=fs::read_dir(&dir_path).map_err(") { return Err("filesystem: unsupported body of FileSystem::read_dir".into()); }
+    let (rd_nf, ls_nf) = if maps {
+        let a = rd.contains("Err(err)=>Err(read_error(err,path.is_file(),path)),");
+        let b = ls.contains(".map_err(|err|read_error(err,dir_path.is_dir(),dir_path))?;");
+        if !a && !rd.contains("Err(err)=>Err(read_error(err,true,path)),") { return Err("filesystem: unsupported error mapping in FileSystem::read".into()); }
+        if !b && !ls.contains(".map_err(|err|read_error(err,true,dir_path))?;") { return Err("filesystem: unsupported error mapping in FileSystem::read_dir".into()); }
+        (a, b)
+    } else {
+        if !rd.contains("Err(err)=>Err(read_error(err,path)),") { return Err("filesystem: unsupported error mapping in FileSystem::read".into()); }
+        if !ls.contains(".map_err(|err|read_error(err,dir_path))?;") { return Err("filesystem: unsupported error mapping in FileSystem::read_dir".into()); }
+        (false, false)
+    };
+    Ok((exists_kind, rd_nf, ls_nf))
+}
+
+fn emit_dir(name: &str, sk: &(Vec<String>, Vec<String>)) -> String {
+    format!("def {name} : DirSkel where\n  pre := {}\n  withParent := {}\n\n", lean_list(&sk.0), lean_list(&sk.1))
 }
 
 /// Does `Source::read` of the archive type work on its own clone of the reader?
@@ -178,6 +284,17 @@ pub fn gen(ctx: &mut Ctx) -> Result<String, String> {
     out.push_str(&emit("zipRegister", &skeleton("zip", &zip)?));
     out.push_str("/-- effect skeleton of `register_file` in src/source/tar.rs -/\n");
     out.push_str(&emit("tarRegister", &skeleton("tar", &tar)?));
+    out.push_str("/-- effect skeleton of `register_dir` in src/source/zip.rs (empty: no such helper) -/\n");
+    out.push_str(&emit_dir("zipRegisterDir", &dir_skeleton("zip", &zip)?));
+    out.push_str("/-- effect skeleton of `register_dir` in src/source/tar.rs (empty: no such helper) -/\n");
+    out.push_str(&emit_dir("tarRegisterDir", &dir_skeleton("tar", &tar)?));
+    out.push_str(&format!("/-- `Zip::create` registers the root directory before the members -/\ndef zipCreateRegistersRoot : Bool := {}\n", create_registers_root("zip", &zip, "Zip")?));
+    out.push_str(&format!("/-- `Tar::create` registers the root directory before the members -/\ndef tarCreateRegistersRoot : Bool := {}\n", create_registers_root("tar", &tar, "Tar")?));
+    let fsf = ctx.file("src/source/filesystem.rs")?.clone();
+    let (ek, rnf, lnf) = fs_facts(&fsf)?;
+    out.push_str(&format!("/-- `FileSystem::exists` answers `is_file()` / `is_dir()` according to the kind of the entry (false: `Path::exists`) -/\ndef fsExistsChecksKind : Bool := {ek}\n"));
+    out.push_str(&format!("/-- `FileSystem::read` reports `NotFound` when the path is not a file -/\ndef fsReadNonFileNotFound : Bool := {rnf}\n"));
+    out.push_str(&format!("/-- `FileSystem::read_dir` reports `NotFound` when the path is not a directory -/\ndef fsReadDirNonDirNotFound : Bool := {lnf}\n"));
     out.push_str(&format!("/-- `Zip::read` clones `self.archive` before reading -/\ndef zipReadClonesReader : Bool := {}\n", read_clones(&zip, "Zip", "archive")?));
     out.push_str(&format!("/-- `Tar::read` clones `self.reader` before seeking -/\ndef tarReadClonesReader : Bool := {}\n", read_clones(&tar, "Tar", "reader")?));
     out.push_str("\nend AmVerif.Gen.Archive\n");
